@@ -31,18 +31,18 @@ PROP_STREAMS = {
     "C06": [("e4", 1.0)],
     "C07": [("e1", 1.0)],
     "C12": [("e1", 1.0)],
-    "C13": [("e3", 1.0)],
+    "C13": [("e3", 0.7), ("e3m", 0.3)],
     "C14": [("e1", 1.0)],
-    "C15": [("e1", 1.0)],
+    "C15": [("e1", 0.8), ("e3", 0.2)],
     "C16": [("e4", 1.0)],
     "C17": [("e4", 1.0)],
-    "C20": [("e3", 1.0)],
+    "C20": [("e3m", 1.0)],
 }
 # runs per tier (cap by wall budget as well); E2 runs are batches of scripted sequences
 TIER = {
-    "quick": {"runs": {"e1": 320, "e2": 400, "e3": 320, "e4": 480}, "budget_s": 75, "K": 2,
+    "quick": {"runs": {"e1": 320, "e2": 400, "e3": 320, "e3m": 320, "e4": 480}, "budget_s": 75, "K": 2,
               "shrink_s": 25},
-    "thorough": {"runs": {"e1": 8000, "e2": 6000, "e3": 8000, "e4": 12000}, "budget_s": 900, "K": 4,
+    "thorough": {"runs": {"e1": 8000, "e2": 6000, "e3": 8000, "e3m": 8000, "e4": 12000}, "budget_s": 900, "K": 4,
                  "shrink_s": 120},
 }
 RUN_TIMEOUT_S = 120
@@ -172,9 +172,12 @@ def shrink_main(a):
         changed = False
         for path in getattr(eng, "SHRINK_LISTS", [("ops",)]):
             cur = trace
-            for p in path[:-1]:
-                cur = cur[p]
-            items = cur.get(path[-1])
+            try:
+                for p in path[:-1]:
+                    cur = cur[p]
+            except (KeyError, IndexError, TypeError):
+                continue
+            items = cur.get(path[-1]) if isinstance(cur, dict) else None
             if not isinstance(items, list) or not items:
                 continue
 
@@ -308,6 +311,11 @@ def check_main(a):
                     jobs.append((sig, matched[0], finding))     # confirm on the minimised trace
                 else:
                     known_hit.append(sig)
+        if os.environ.get("VERIF_NO_SHRINK"):
+            for (sig_, r_, f_) in jobs:
+                print("UNSHRUNK %s engine=%s index=%d" % (sig_, r_["engine"], r_["index"]))
+            status = 1 if jobs else status
+            jobs = []
         jobs = jobs[:MAX_SHRINK_JOBS] + [(s_, r_, f_) for (s_, r_, f_) in jobs[MAX_SHRINK_JOBS:] if f_ is not None]
         from concurrent.futures import ThreadPoolExecutor
         with ThreadPoolExecutor(max_workers=min(8, max(1, len(jobs)))) as tp:
